@@ -351,8 +351,18 @@ def guard_value_ok(fm: FuncModel, e: ast.AST, at, prog, depth=0) -> list[str]:
         return []  # `not candidates`
     if isinstance(e, ast.BoolOp) and isinstance(e.op, ast.And):
         out: list[str] = []
-        oks = [guard_value_ok(fm, v, at, prog, depth + 1) for v in e.values]
-        return [] if any(not o for o in oks) else ["no conjunct is an emptiness test"]
+        evidence = 0
+        for v in e.values:
+            if isinstance(v, ast.Name) and v.id in fm.f.params():
+                continue  # configuration flag
+            p = guard_value_ok(fm, v, at, prog, depth + 1)
+            if p:
+                out += p
+            else:
+                evidence += 1
+        if not out and not evidence:
+            out.append("no conjunct is an emptiness test")
+        return out
     if isinstance(e, ast.Name):
         out = []
         for d in fm.cfg.reaching_defs(e.id, at):
